@@ -100,7 +100,24 @@ func VerifC08Life() {
 	if join {
 		life.script <- mk(&hagallpb.ParticipantJoinRequest{Type: hagallpb.MsgType_MSG_TYPE_PARTICIPANT_JOIN_REQUEST, Timestamp: vts(), RequestId: 1, SessionId: sid})
 	}
-	burst := []int{0, 1, 2, 9}[verifnd.Choice(4)]
+	switched := false
+	if join && verifnd.Bool() {
+		// the client switches to a session of its own
+		switched = true
+		life.script <- mk(&hagallpb.ParticipantJoinRequest{Type: hagallpb.MsgType_MSG_TYPE_PARTICIPANT_JOIN_REQUEST, Timestamp: vts(), RequestId: 5, SessionId: ""})
+	}
+	pendingPose := false
+	if join && verifnd.Bool() {
+		// ... and leaves a pose update pending in its scheduler when the connection ends
+		pendingPose = true
+		life.script <- mk(&hagallpb.EntityAddRequest{Type: hagallpb.MsgType_MSG_TYPE_ENTITY_ADD_REQUEST, Timestamp: vts(), RequestId: 6, Pose: &hagallpb.Pose{}})
+		life.script <- mk(&hagallpb.EntityUpdatePose{Type: hagallpb.MsgType_MSG_TYPE_ENTITY_UPDATE_POSE, Timestamp: vts(), EntityId: 1, Pose: &hagallpb.Pose{Px: 1}})
+	}
+	burstMenu := []int{0, 1, 2, 9}
+	if switched || pendingPose {
+		burstMenu = []int{0, 2}
+	}
+	burst := burstMenu[verifnd.Choice(len(burstMenu))]
 	kind := verifnd.Choice(3)
 	for i := 0; i < burst; i++ {
 		switch kind {
@@ -172,6 +189,11 @@ func VerifC08Life() {
 	verifnd.Assert(verifnd.Gauge("ws_connected_clients") == g0, "C08.life.gauge_restored", endName)
 	// no ghost: the witness in the same session sees the participant leave iff it had joined
 	got := witness.drain()
+	// the sessions it was in keep running: their frame workers tick without touching the dead connection
+	verifnd.FireTickers(vFrame)
+	verifnd.Quiesce()
+	verifnd.FireTickers(vFrame)
+	verifnd.Quiesce()
 	joins := countType(got, hagallpb.MsgType_MSG_TYPE_PARTICIPANT_JOIN_BROADCAST)
 	leaves := countType(got, hagallpb.MsgType_MSG_TYPE_PARTICIPANT_LEAVE_BROADCAST)
 	verifnd.Assert(joins == leaves && joins <= 1, "C08.life.no_ghost", endName)
